@@ -141,6 +141,17 @@ func evalLibrary(c *Case, doc interface{}, accessor bool) retrieveResult {
 		noteParseVia(poison, true, accessor, false)
 		_, _ = jsonpath.Parse(poison, BuildConfig(nil, true, accessor))
 	}
+	if c.Funcs && !api.bare && hv%5 == 2 {
+		// somebody else's Config first: the same function NAMES (and the same mode) bound to other
+		// functions, the same path text through the same entry point. What a path calls is decided by
+		// the Config it is parsed with, not by the names that Config happens to use.
+		decoy := decoyConfig(accessor, len(c.Path)%2 == 1)
+		if api.retrieve {
+			_, _ = jsonpath.Retrieve(c.Path, gen.MustDecode(tinyDoc, false), decoy)
+		} else {
+			_, _ = jsonpath.Parse(c.Path, decoy)
+		}
+	}
 	noteParseVia(c.Path, c.Funcs && !api.bare, accessor && !api.bare, api.retrieve)
 	reenterDoc := gen.MustDecode(tinyDoc, false)
 	if api.retrieve {
@@ -203,6 +214,31 @@ func evalLibrary(c *Case, doc interface{}, accessor bool) retrieveResult {
 		return retrieveResult{got: got, err: err, rec: rec, again: f, lateBinding: fmt.Sprintf("%d calls went to functions that were registered on the Config only after Parse had returned", lateCalls)}
 	}
 	return retrieveResult{got: got, err: err, rec: rec, again: f}
+}
+
+// decoyConfig registers every catalogue name, in the order BuildConfigOrder uses, with a function
+// that has nothing to do with the catalogue's.
+func decoyConfig(accessor, accessorFirst bool) jsonpath.Config {
+	cfg := jsonpath.Config{}
+	if accessor && accessorFirst {
+		cfg.SetAccessorMode()
+	}
+	if accessorFirst {
+		cfg.SetAggregateFunction("fboth", func(vs []interface{}) (interface{}, error) { return "DECOY", nil })
+	}
+	for _, name := range gen.FilterNames {
+		cfg.SetFilterFunction(name, func(v interface{}) (interface{}, error) { return "DECOY", nil })
+	}
+	for _, name := range gen.AggNames {
+		cfg.SetAggregateFunction(name, func(vs []interface{}) (interface{}, error) { return "DECOY", nil })
+	}
+	if !accessorFirst {
+		cfg.SetAggregateFunction("fboth", func(vs []interface{}) (interface{}, error) { return "DECOY", nil })
+	}
+	if accessor && !accessorFirst {
+		cfg.SetAccessorMode()
+	}
+	return cfg
 }
 
 // transplantInPlace makes the live document dst deep-equal to src while dst's root container
@@ -276,10 +312,18 @@ func checkC01(c *Case, st *Stats) string {
 	specDoc := c.Document()
 	docText := c.Doc.JSON()
 	if len(c.Ints) > 0 {
-		doc = gen.ShareSubtrees(doc, uint64(c.Ints[0]))
-		specDoc = gen.ShareSubtrees(specDoc, uint64(c.Ints[0]))
-		docText += fmt.Sprintf(" (shared subtrees, seed %d)", c.Ints[0])
-		st.Class("doc:shared-subtree")
+		if c.Ints[0]%3 == 0 {
+			// one array is a window of another array's storage (`head := all[:k]`)
+			doc = gen.OverlapSlices(doc, uint64(c.Ints[0]))
+			specDoc = gen.OverlapSlices(specDoc, uint64(c.Ints[0]))
+			docText += fmt.Sprintf(" (one array a window of another, seed %d)", c.Ints[0])
+			st.Class("doc:array-window-of-another")
+		} else {
+			doc = gen.ShareSubtrees(doc, uint64(c.Ints[0]))
+			specDoc = gen.ShareSubtrees(specDoc, uint64(c.Ints[0]))
+			docText += fmt.Sprintf(" (shared subtrees, seed %d)", c.Ints[0])
+			st.Class("doc:shared-subtree")
+		}
 	}
 	if c.Doc != nil && c.Doc.Depth() >= 14 {
 		st.Class("doc:deep(>=14 levels)")
